@@ -2,7 +2,15 @@
 
 package analyzer
 
-import "github.com/ludo-technologies/pyscn/internal/parser"
+import (
+	"context"
+	"fmt"
+	"math/rand"
+	"sort"
+	"strings"
+
+	"github.com/ludo-technologies/pyscn/internal/parser"
+)
 
 // Thin exported wrappers around unexported analyzer functions, for the verification harness only.
 
@@ -14,4 +22,132 @@ func VerifLCOMCollect(classNode *parser.Node) (map[string]map[string]bool, int, 
 // VerifLCOMClasses: the class nodes the LCOM analyzer collects.
 func VerifLCOMClasses(ast *parser.Node) []*parser.Node {
 	return NewLCOMAnalyzer(nil).collectClasses(ast)
+}
+
+// ---- clone detection (C08/C09) ---------------------------------------------------------------------
+
+// VerifCloneRaw is what compareFragments measures for a pair before the similarity bands are applied.
+type VerifCloneRaw struct {
+	OK        bool
+	Sim, Dist float64
+}
+
+// VerifPrepare installs the fragments and runs the real prepareFragments.
+func (cd *CloneDetector) VerifPrepare(frags []*CodeFragment) {
+	cd.fragments = frags
+	cd.clonePairs = []*ClonePair{}
+	cd.cloneGroups = []*CloneGroup{}
+	cd.prepareFragments()
+}
+
+// VerifRaw runs the real compareFragments with the band thresholds opened (every similarity gets a type),
+// so that the result is the measurement itself: nil = rejected by a pre-filter / the classifier gate.
+// The classifier keeps the thresholds it was built with.
+func (cd *CloneDetector) VerifRaw(f1, f2 *CodeFragment) VerifCloneRaw {
+	if f1.TreeNode == nil || f2.TreeNode == nil {
+		return VerifCloneRaw{}
+	}
+	c := *cd
+	c.cloneDetectorConfig.Type1Threshold = 2
+	c.cloneDetectorConfig.Type2Threshold = 2
+	c.cloneDetectorConfig.Type3Threshold = 2
+	c.cloneDetectorConfig.Type4Threshold = -1
+	p := c.compareFragments(f1, f2)
+	if p == nil {
+		return VerifCloneRaw{}
+	}
+	return VerifCloneRaw{OK: true, Sim: p.Similarity, Dist: p.Distance}
+}
+
+func (cd *CloneDetector) VerifStandard() []*ClonePair {
+	cd.clonePairs = []*ClonePair{}
+	cd.detectClonePairsStandardWithContext(context.Background())
+	return append([]*ClonePair{}, cd.clonePairs...)
+}
+
+func (cd *CloneDetector) VerifBatched(maxPairs, batchSize int) []*ClonePair {
+	cd.clonePairs = []*ClonePair{}
+	cd.detectClonePairsWithBatchingContext(context.Background(), maxPairs, batchSize)
+	return append([]*ClonePair{}, cd.clonePairs...)
+}
+
+// VerifAuto: the dispatcher (standard or batched by its own rule) followed by the final sort/limit.
+func (cd *CloneDetector) VerifAuto() []*ClonePair {
+	cd.clonePairs = []*ClonePair{}
+	cd.detectClonePairsWithContext(context.Background())
+	return append([]*ClonePair{}, cd.clonePairs...)
+}
+
+func (cd *CloneDetector) VerifSetMaxPairs(n int)       { cd.cloneDetectorConfig.MaxClonePairs = n }
+func (cd *CloneDetector) VerifSetBatchThreshold(n int) { cd.cloneDetectorConfig.BatchSizeThreshold = n }
+func (cd *CloneDetector) VerifConfig() CloneDetectorConfig { return cd.cloneDetectorConfig }
+func (cd *CloneDetector) VerifFragments() []*CodeFragment  { return cd.fragments }
+
+// VerifLSHStage: stage 1+2 of DetectClonesWithLSH with the same components and options: per fragment the
+// feature list, the MinHash signature and the candidate indices the index returns.
+func (cd *CloneDetector) VerifLSHStage() (feats [][]string, sigs [][]uint64, cands [][]int) {
+	extractor := NewASTFeatureExtractor().WithOptions(max(1, cd.cloneDetectorConfig.LSHRows), max(2, 4), true, false)
+	hasher := NewMinHasher(cd.cloneDetectorConfig.LSHMinHashCount)
+	lsh := NewLSHIndex(cd.cloneDetectorConfig.LSHBands, cd.cloneDetectorConfig.LSHRows)
+	ids := map[string]int{}
+	sg := make([]*MinHashSignature, len(cd.fragments))
+	for i, f := range cd.fragments {
+		fs, _ := extractor.ExtractFeatures(f.TreeNode)
+		feats = append(feats, fs)
+		s := hasher.ComputeSignature(fs)
+		sg[i] = s
+		sigs = append(sigs, append([]uint64{}, s.signatures...))
+		id := fmt.Sprintf("%s:%d-%d", f.Location.FilePath, f.Location.StartLine, f.Location.EndLine)
+		ids[id] = i
+		_ = lsh.AddFragment(id, s)
+	}
+	for i := range cd.fragments {
+		c := []int{}
+		for _, id := range lsh.FindCandidates(sg[i]) {
+			c = append(c, ids[id])
+		}
+		sort.Ints(c)
+		cands = append(cands, c)
+	}
+	return
+}
+
+// VerifHashFamily: the (a_i, b_i) of the MinHash family, re-derived with the generator's recipe and CHECKED against the
+// real closures on probe values; ok=false means the recipe no longer describes the code.
+func VerifHashFamily(n int) (a, b []uint64, ok bool) {
+	m := NewMinHasher(n)
+	rng := rand.New(rand.NewSource(0x5eed_1234_cafe_babe))
+	ok = true
+	for i := 0; i < m.numHashes; i++ {
+		ai := rng.Uint64() | 1
+		bi := rng.Uint64()
+		a, b = append(a, ai), append(b, bi)
+		for _, x := range []uint64{0, 1, 2, 0xdeadbeefcafef00d, ^uint64(0), 1 << 63, 12345678901234567} {
+			if m.hashFunctions[i](x) != (ai*x)^bi+ai+bi {
+				ok = false
+			}
+		}
+	}
+	return
+}
+
+func VerifHash64(s string) uint64 { return hash64(s) }
+
+// VerifTreeKey: canonical text of a prepared tree (labels + shape), to recognise structurally identical fragments.
+func VerifTreeKey(t *TreeNode) string {
+	if t == nil {
+		return "nil"
+	}
+	var b strings.Builder
+	var rec func(n *TreeNode)
+	rec = func(n *TreeNode) {
+		b.WriteString(n.Label)
+		b.WriteByte('(')
+		for _, c := range n.Children {
+			rec(c)
+		}
+		b.WriteByte(')')
+	}
+	rec(t)
+	return b.String()
 }
